@@ -445,6 +445,13 @@ func genPluginMessage(g *G, pk proto.Packet) {
 		max = plugin.MaxServerboundPayloadSize
 	}
 	m.Data = g.Bytes(0, max)
+	if !g.ge(47) && g.R.Intn(3) == 0 {
+		// 1.7.x: the byte array carries a short length with Forge's extended form (a third
+		// byte) from 32768 bytes on; legal up to ForgeMaxArrayLength
+		n := []int{32767, 32768, 32769, 40000, 65535, 65536, 70001}[g.R.Intn(7)]
+		m.Data = make([]byte, n)
+		g.R.Read(m.Data)
+	}
 }
 
 func (g *G) sigPairs() ([]*crypto.SignaturePair, *crypto.SignaturePair) {
